@@ -21,11 +21,11 @@ pub fn entry() -> Entry {
         shard,
         replay,
         level: "exploration",
-        rule: "generated query strings against a small fixed database (nullable, absent and late columns, 2 flushed partitions + buffer): (i) grammar-generated statements of the supported subset with random nesting, quoting styles, aliases and numeric literal forms (negative, fractional, exponent, beyond u64); (ii) every unsupported construct the SQL parser accepts (JOIN, GROUP BY, HAVING, DISTINCT, subqueries, IN, BETWEEN, CASE, CAST, UNION, WITH, window functions, LIMIT ALL, FETCH, several statements, non-SELECT, empty); (iii) token- and byte-level mutations of valid statements. Oracle: the call returns (no caller panic, no hang, no Canceled); an Ok result has one column per select item in order under the written name/alias, equally long columns, row view = column view, at most LIMIT rows; unknown table -> Err. Non-trivial = the text parses with sqlparser (reaches LocustDB's own conversion code); distinct = statement text",
+        rule: "generated query strings against a small fixed database (nullable, absent and late columns, 2 flushed partitions + buffer): (o) well-typed statements over the fixture (plain, repeated, aliased, constant, absent and late select items; aggregates; WHERE; ORDER BY on selected and unselected columns; LIMIT / OFFSET windows inside, at and beyond the end) so that most succeed and the result shape is judged; (i) grammar-generated statements of the supported subset with random nesting, quoting styles, aliases and numeric literal forms (negative, fractional, exponent, beyond u64); (ii) every unsupported construct the SQL parser accepts (JOIN, GROUP BY, HAVING, DISTINCT, subqueries, IN, BETWEEN, CASE, CAST, UNION, WITH, window functions, LIMIT ALL, FETCH, several statements, non-SELECT, empty); (iii) token- and byte-level mutations of valid statements. Oracle: the call returns (no caller panic, no hang, no Canceled); an Ok result has one column per select item in order under the written name/alias, equally long columns, row view = column view, at most LIMIT rows; unknown table -> Err. Non-trivial = the text parses with sqlparser (reaches LocustDB's own conversion code); distinct = statement text",
         assumptions: &["`written name` of an unaliased item = sqlparser's rendering of the expression with identifier quotes stripped (what the engine documents)", "an engine-internal panic that is delivered to the caller as an error value is an error value"],
         quick_budget_s: 900,
         thorough_budget_s: 7200,
-        required_classes: &["kind:grammar", "kind:unsupported", "kind:mutated_tokens", "kind:mutated_bytes", "outcome:ok", "outcome:err", "parses:yes", "parses:no", "literal:negative", "literal:fractional", "literal:exponent", "literal:beyond_u64", "quoting:double", "quoting:backtick", "alias", "star"],
+        required_classes: &["kind:well_typed", "wt:select", "wt:aggregate", "wt:repeated_item", "wt:absent_column_selected", "wt:window_inside", "wt:offset_beyond", "wt:limit_0", "wt:order_by_2", "kind:grammar", "kind:unsupported", "kind:mutated_tokens", "kind:mutated_bytes", "outcome:ok", "outcome:err", "parses:yes", "parses:no", "literal:negative", "literal:fractional", "literal:exponent", "literal:beyond_u64", "quoting:double", "quoting:backtick", "alias", "star"],
         exhaustive_claim: false,
     }
 }
@@ -260,8 +260,63 @@ fn mutate_bytes(s: &str, ops: &[(u8, u16, u8)]) -> String {
     String::from_utf8_lossy(&b).to_string()
 }
 
+/// Statements whose expressions are well typed for the fixture table, so that most of them succeed and the
+/// result-shape part of the property (names, equal lengths, row view = column view, LIMIT) is exercised with every
+/// clause combination: repeated select items, aliases equal to column names, constants, absent and late columns,
+/// aggregates next to plain items, ORDER BY on unselected columns, LIMIT / OFFSET windows inside, at and beyond the end.
+fn well_typed_statement() -> BoxedStrategy<(String, Vec<String>)> {
+    let col = || proptest::sample::select(vec!["id", "n", "s", "f", "late", "nosuch", "\"id\"", "`s`", "\"nosuch\""]);
+    let plain = prop_oneof![
+        6 => col().prop_map(|c| c.to_string()),
+        1 => proptest::sample::select(vec!["id + 1", "id * 2", "n - 1", "f * 2", "id % 3", "id + n", "late + id", "nosuch + 1", "length(s)", "1", "'x'", "2.5", "id < 5", "n IS NULL"]).prop_map(|c| c.to_string()),
+    ];
+    let agg = proptest::sample::select(vec!["count(1)", "count(n)", "sum(id)", "min(n)", "max(f)", "avg(id)", "max(s)", "sum(late)", "count(nosuch)", "sum(id) / count(1)"]).prop_map(|c| c.to_string());
+    let alias = || proptest::option::weighted(0.3, proptest::sample::select(vec!["x", "id", "n", "\"my col\"", "nosuch"]));
+    let pred = proptest::sample::select(vec!["id < 7", "id >= 3", "id <> 4", "n IS NULL", "n IS NOT NULL", "n > 0", "s = 'a'", "s LIKE 'a%'", "late = 8", "nosuch IS NULL", "nosuch IS NOT NULL", "id < 9 AND n > 0", "id < 2 OR id > 9", "f > 1.5", "id < 0"]);
+    (
+        vec((prop_oneof![4 => plain.prop_map(|p| (p, false)), 1 => agg.prop_map(|a| (a, true))], alias()), 1..=4),
+        proptest::option::weighted(0.45, pred),
+        vec((col(), proptest::sample::select(vec!["", " ASC", " DESC"])), 0..=2),
+        proptest::option::weighted(0.65, 0u64..15),
+        proptest::option::weighted(0.5, 0u64..15),
+    )
+        .prop_map(|(items, filter, order, limit, offset)| {
+            let mut labels = vec![];
+            let has_agg = items.iter().any(|i| (i.0).1);
+            labels.push(if has_agg { "wt:aggregate".to_string() } else { "wt:select".to_string() });
+            let texts: Vec<String> = items.iter().map(|((e, _), a)| match a { Some(a) => format!("{} AS {}", e, a), None => e.clone() }).collect();
+            if (0..texts.len()).any(|i| (0..i).any(|j| items[i].0 .0 == items[j].0 .0)) {
+                labels.push("wt:repeated_item".to_string());
+            }
+            if items.iter().any(|((e, _), _)| e.contains("nosuch")) {
+                labels.push("wt:absent_column_selected".to_string());
+            }
+            let mut s = format!("SELECT {} FROM t", texts.join(", "));
+            if let Some(f) = filter {
+                labels.push("wt:where".to_string());
+                s.push_str(&format!(" WHERE {}", f));
+            }
+            if !order.is_empty() && !has_agg {
+                labels.push(format!("wt:order_by_{}", order.len()));
+                s.push_str(" ORDER BY ");
+                s.push_str(&order.iter().map(|(c, d)| format!("{}{}", c, d)).collect::<Vec<_>>().join(", "));
+            }
+            if let Some(l) = limit {
+                labels.push(if l == 0 { "wt:limit_0".to_string() } else { "wt:limit".to_string() });
+                s.push_str(&format!(" LIMIT {}", l));
+            }
+            if let Some(o) = offset {
+                labels.push(match (o, limit) { (0, _) => "wt:offset_0", (o, _) if o >= 12 => "wt:offset_beyond", (o, Some(l)) if o + l < 12 => "wt:window_inside", _ => "wt:offset" }.to_string());
+                s.push_str(&format!(" OFFSET {}", o));
+            }
+            (s, labels)
+        })
+        .boxed()
+}
+
 fn statement() -> BoxedStrategy<(String, String)> {
     prop_oneof![
+        4 => well_typed_statement().prop_map(|(s, l)| (s, format!("kind:well_typed|{}", l.join("|")))),
         5 => grammar_statement().prop_map(|(s, l)| (s, format!("kind:grammar|{}", l.join("|")))),
         2 => proptest::sample::select(unsupported_statements()).prop_map(|s| (s.to_string(), "kind:unsupported".to_string())),
         2 => (grammar_statement(), vec((any::<u8>(), any::<u16>(), any::<u16>()), 1..4)).prop_map(|((s, _), ops)| (mutate_tokens(&s, &ops), "kind:mutated_tokens".to_string())),
